@@ -159,7 +159,7 @@ func runC16(rcx *RunCtx) {
 		runIsolation(rcx)
 		return
 	}
-	runRandomWorkload(rcx, workloadOpts{NoRename: rcx.Index%3 == 1, Xattr: true, MaxThreads: 4, MaxOps: 30})
+	runRandomWorkload(rcx, workloadOpts{NoRename: rcx.Index%3 == 1, Xattr: true, MaxThreads: 4, MaxOps: 30, Large: rcx.Index%24 == 0})
 }
 
 func init() {
@@ -168,7 +168,7 @@ func init() {
 		Desc: "global progress, race freedom (race build) and isolation across concurrent sessions",
 		Run:  runC16,
 		Quick: 48000, Thorough: 1200000, QuickSecs: 60, ThorSecs: 1200,
-		Rule:  "random concurrent workloads: 1-3 connections x 1-4 client threads each (lock-step per thread, so one request outstanding per fid but many per connection), 4-34 requests per thread over walk/clone/open/read/write/create/mkdir/symlink/mknod/unlinkat/renameat/rename/remove/link/setattr/xattr/clunk on a shared tree (1/3 of runs without renames, 1/3 isolation runs on disjoint subtrees), schedulers: uniform / sticky / PCT, small reply pipes with a slow reader, random segmentation. Oracles: every request answered at quiescence, no deadlock (blocked-task report), no step-budget exhaustion, no panic at the top of a goroutine, no runtime abort; isolation: per-client reply sequences equal to the client's solo run on a fresh server; thorough tier repeats the workloads under the Go race detector. Non-trivial = >=2 backend calls in flight together.",
+		Rule:  "random concurrent workloads: 1-3 connections x 1-4 client threads each (one run in 24: 4-8 connections x 2-8 threads, up to 64 clients, 3-10 requests each; lock-step per thread, so one request outstanding per fid but many per connection), 4-34 requests per thread over walk/clone/open/read/write/create/mkdir/symlink/mknod/unlinkat/renameat/rename/remove/link/setattr/xattr/clunk on a shared tree (1/3 of runs without renames, 1/3 isolation runs on disjoint subtrees), schedulers: uniform / sticky / PCT, small reply pipes with a slow reader, random segmentation. Oracles: every request answered at quiescence, no deadlock (blocked-task report), no step-budget exhaustion, no panic at the top of a goroutine, no runtime abort; isolation: per-client reply sequences equal to the client's solo run on a fresh server; thorough tier repeats the workloads under the Go race detector. Non-trivial = >=2 backend calls in flight together.",
 		Assume: []string{"clients keep at most one request outstanding per fid (as the statement requires)", "Tversion concurrent with other traffic is documented as unsafe and not generated", "race detection is limited to accesses unordered by p9's own synchronisation; weak-memory effects are out of reach"},
 		Real:   []string{"p9.Server", "p9 path tree / fid table / handlers", "p9 wire codec"},
 		Stub:   []string{"transport (simnet pipes)", "backend tree (simfs)", "raw 9P peer (refcodec)"},
